@@ -1446,3 +1446,99 @@ def _balanced(s):
             if d < 0:
                 return False
     return d == 0
+
+
+def all_stmts(root):
+    """every statement of every nested block"""
+    for n in walk(root):
+        if n.get("k") == "Block":
+            for s in n.get("stmts", []):
+                yield s
+
+
+def stmts_in_loops(body, loops, frag):
+    """statements whose text contains `frag` and that sit directly under the given nest of iterations.
+    loops = [(placeholder, range text), ..] outermost first; `frag` may use `{placeholder}` for the
+    iteration variables (whatever they are called in the code).  Loops and iterator-chain closures are
+    treated alike; other statements around or between are irrelevant.  -> [(stmt, binders)]"""
+    out = []
+    for s in all_stmts(body):
+        b = enclosing_binders(body, s)
+        if b is None or len(b) < len(loops):
+            continue
+        inner = b[len(b) - len(loops):] if loops else []
+        names = {}
+        ok = True
+        for (ph, rng), (name, it, _n) in zip(loops, inner):
+            if iter_source(it) != rng:
+                ok = False
+                break
+            names[ph] = name
+        if not ok:
+            continue
+        try:
+            f = frag.format(**names)
+        except (KeyError, IndexError):
+            continue
+        if f in ftxt(s):
+            out.append((s, inner))
+    return out
+
+
+def enclosing_conds(root, target):
+    """texts of the conditions under which `target` executes (if / else-of / match arm / while), outermost first"""
+    found = []
+
+    def t(n):
+        return unparse(n).replace(" ", "")
+
+    def rec(n, conds):
+        if found:
+            return
+        if isinstance(n, list):
+            for x in n:
+                rec(x, conds)
+            return
+        if not isinstance(n, dict):
+            return
+        if n is target:
+            found.append(list(conds))
+            return
+        k = n.get("k")
+        if k == "If":
+            c = t(strip(n["cond"]))
+            rec(n["cond"], conds)
+            rec(n["then"], conds + [c])
+            rec(n.get("else"), conds + ["!" + c])
+            return
+        if k == "Match":
+            rec(n["e"], conds)
+            for a in n["arms"]:
+                rec(a.get("guard"), conds)
+                rec(a["body"], conds + ["match %s:%s" % (t(n["e"]), t(a["pat"]))])
+            return
+        if k == "While":
+            rec(n["cond"], conds)
+            rec(n["body"], conds + [t(strip(n["cond"]))])
+            return
+        for v in children(n):
+            rec(v, conds)
+
+    rec(root, [])
+    return found[0] if found else None
+
+
+def conjuncts(text_or_node):
+    """`a && b && c` -> {texts of a, b, c} (order-free)"""
+    out = set()
+
+    def rec(e):
+        e = strip(e)
+        if e.get("k") == "Binary" and e["op"] == "&&":
+            rec(e["left"])
+            rec(e["right"])
+        else:
+            out.add(unparse(e).replace(" ", ""))
+
+    rec(text_or_node)
+    return out
